@@ -77,6 +77,7 @@ def run_case(kind, q):
     if q.get("dtype"):
         # the same frame as detector counts in an integer (or single precision) dtype
         frame = (frame if q["dtype"] == "float32" else np.round(frame)).astype(q["dtype"])
+    frame = _layout(frame, q.get("layout"))
     msgs = []
     # the pattern object may have served frames of other shapes before
     for s_ in q.get("prior_shapes", []):
@@ -188,6 +189,23 @@ def _frame(q):
                                     radius=q["pattern"]["radius"], antialiased=True)
     if q.get("dtype"):
         frame = (frame if q["dtype"] == "float32" else np.round(frame)).astype(q["dtype"])
+    return _layout(frame, q.get("layout"))
+
+
+def _layout(frame, layout):
+    """the same frame (same shape, same values) in another memory layout: column-major, a transposed view of the transposed
+    data, every second column of a wider array, a read-only array"""
+    if layout == "F":
+        return np.asfortranarray(frame)
+    if layout == "T":
+        return np.ascontiguousarray(frame.T).T
+    if layout == "strided":
+        wide = np.zeros((frame.shape[0], 2 * frame.shape[1]), dtype=frame.dtype)
+        wide[:, ::2] = frame
+        return wide[:, ::2]
+    if layout == "readonly":
+        frame = frame.copy()
+        frame.setflags(write=False)
     return frame
 
 
@@ -263,6 +281,9 @@ def search(ctx, boost=1, focus=()):
         elif k % 3 == 2:  # earlier, larger frame
             q["prior_shapes"] = [[shape[0] + 2 * int(rng.integers(1, 5)) + int(rng.integers(0, 2)),
                                   shape[1] + 2 * int(rng.integers(1, 5)) + int(rng.integers(0, 2))]]
+        if k % 5 in (1, 3):
+            q["layout"] = ("F", "T", "strided", "readonly")[(k // 5) % 4]
+            ctx.count("layout_" + q["layout"])
         msgs_ = run_case("peaks", q)
         ctx.oracle_case("peaks", q, msgs_, key=classify("peaks", q, msgs_) if msgs_ else None,
                         nontrivial=(shape[0] % 2 == 1 or shape[1] % 2 == 1))
